@@ -67,7 +67,8 @@ pub fn gen(rng: &mut Prng) -> Cfg {
         let out = match rng.below(100) {
             0..=59 => Out::Ok,
             60..=84 => Out::Err(1),
-            _ => Out::Panic,
+            85..=94 => Out::Panic,
+            _ => Out::PanicInCall,
         };
         let (mut drop_at_ms, mut drop_after_polls) = (None, None);
         if rng.chance(0.3) {
@@ -599,6 +600,13 @@ impl tower::Service<Req> for Hold {
 }
 
 pub fn stress_threads(sseed: u64, rounds: u64) -> Report {
+    stress_threads_for("C01", sseed, rounds)
+}
+
+/// `prop` = "C07": only the configuration without a wait limit, polled by plain threads outside any
+/// runtime (a bulkhead without `max_wait_duration` needs no clock); judged on "every caller is
+/// admitted sooner or later and nothing panics".
+pub fn stress_threads_for(prop: &str, sseed: u64, rounds: u64) -> Report {
     use std::future::Future;
     use std::sync::atomic::{AtomicBool, AtomicI64, AtomicU64, AtomicUsize, Ordering::SeqCst};
     use std::task::{Context, Poll, Wake, Waker};
@@ -610,7 +618,10 @@ pub fn stress_threads(sseed: u64, rounds: u64) -> Report {
     let mut rng = Prng::new(sseed);
     let threads = *rng.pick(&[4usize, 8, 8, 12]);
     let n = *rng.pick(&[1usize, 1, 2, 3]);
-    let reject = rng.chance(0.7);
+    let reject = prop == "C01" && rng.chance(0.7);
+    // without a wait limit the bulkhead needs no timer: poll it outside any runtime
+    let no_runtime = !reject && (prop == "C07" || rng.chance(0.5));
+    let panicked = Arc::new(std::sync::Mutex::new(None::<String>));
     let mut rep = Report::default();
     let rt = match tokio::runtime::Builder::new_multi_thread().worker_threads(2).enable_time().build() {
         Ok(rt) => rt,
@@ -645,8 +656,9 @@ pub fn stress_threads(sseed: u64, rounds: u64) -> Report {
         let stuck = stuck.clone();
         let slow = slow.clone();
         let handle = rt.handle().clone();
+        let panicked = panicked.clone();
         hs.push(std::thread::spawn(move || {
-            let _g = handle.enter();
+            let _g = if no_runtime { None } else { Some(handle.enter()) };
             let waker = Waker::from(Arc::new(Noop));
             let mut cx = Context::from_waker(&waker);
             let mut rejected = 0u64;
@@ -687,8 +699,20 @@ pub fn stress_threads(sseed: u64, rounds: u64) -> Report {
                 // poll until this call is rejected/finished or is inside the inner service
                 let mut res = None;
                 let mut waited = 0u64;
+                let mut gave_up = false;
                 loop {
-                    match fut.as_mut().poll(&mut cx) {
+                    let polled = std::panic::catch_unwind(std::panic::AssertUnwindSafe(|| fut.as_mut().poll(&mut cx)));
+                    let polled = match polled {
+                        Ok(p) => p,
+                        Err(_) => {
+                            let msg = crate::sim::take_last_panic().unwrap_or_else(|| "panic".into());
+                            panicked.lock().unwrap_or_else(|e| e.into_inner()).get_or_insert(msg);
+                            bad_round.compare_exchange(0, u64::MAX, SeqCst, SeqCst).ok();
+                            gave_up = true;
+                            break;
+                        }
+                    };
+                    match polled {
                         Poll::Ready(x) => {
                             res = Some(x);
                             break;
@@ -729,7 +753,7 @@ pub fn stress_threads(sseed: u64, rounds: u64) -> Report {
                         return rejected;
                     }
                 }
-                if res.is_none() {
+                if res.is_none() && !gave_up {
                     let mut k = 0u64;
                     loop {
                         if let Poll::Ready(x) = fut.as_mut().poll(&mut cx) {
@@ -748,7 +772,11 @@ pub fn stress_threads(sseed: u64, rounds: u64) -> Report {
                 if !matches!(res, Some(Ok(_))) {
                     rejected += 1;
                 }
-                drop(fut);
+                if gave_up {
+                    std::mem::forget(fut);
+                } else {
+                    drop(fut);
+                }
                 // phase 3: everybody finished
                 if arrived.fetch_add(1, SeqCst) + 1 == threads {
                     arrived.store(0, SeqCst);
@@ -778,6 +806,21 @@ pub fn stress_threads(sseed: u64, rounds: u64) -> Report {
             format!("threads: {high} calls were inside the inner service at once through a bulkhead with max_concurrent_calls={n} ({}; {threads} threads released together, round {})", if reject { "reject_when_full" } else { "unbounded wait" }, bad_round.load(SeqCst)),
         );
     }
+    if let Some(msg) = panicked.lock().unwrap_or_else(|e| e.into_inner()).clone() {
+        rep.violate(
+            format!("{prop}:library-panic"),
+            format!("threads: a call through a bulkhead with max_concurrent_calls={n} and {} panicked when polled {}: {msg}", if reject { "reject_when_full" } else { "no wait limit" }, if no_runtime { "by a plain thread outside any runtime" } else { "inside a runtime context" }),
+        );
+    }
+    if prop == "C07" && !no_runtime {
+        rep.inconclusive = Some("C07 thread stress is defined for the clock-free configuration only".into());
+    }
+    if prop == "C07" && high < n as i64 && rep.violations.is_empty() && threads >= n {
+        rep.violate("C07:capacity-not-used", format!("threads: {threads} callers released together on an idle bulkhead with max_concurrent_calls={n} and no wait limit, but at most {high} were ever inside the inner service"));
+    }
+    if prop == "C07" && !reject && rejected > 0 && rep.violations.is_empty() {
+        rep.violate("C07:caller-lost", format!("threads: {rejected} calls through a bulkhead without a wait limit did not end with the inner service's answer"));
+    }
     if stuck.load(SeqCst) {
         if rep.violations.is_empty() {
             rep.inconclusive = Some("thread stress: a thread waited 60 s at a barrier (a call never finished)".into());
@@ -785,7 +828,7 @@ pub fn stress_threads(sseed: u64, rounds: u64) -> Report {
     } else if st.inflight.load(SeqCst) != 0 {
         rep.violate("C01:harness-accounting", format!("threads: in-flight counter ended at {}", st.inflight.load(SeqCst)));
     }
-    rep.nontrivial = high >= n as i64 && rejected > 0;
+    rep.nontrivial = high >= n as i64 && (rejected > 0 || prop == "C07");
     rep.sig = crate::prng::mix(sseed, high as u64);
     rep.count("thread_rounds", rounds);
     rep.count("thread_calls_neither_rejected_nor_admitted_within_200ms", slow.load(SeqCst));
@@ -793,6 +836,6 @@ pub fn stress_threads(sseed: u64, rounds: u64) -> Report {
     rep.count("thread_calls_rejected_or_queued", rejected);
     rep.max("max_in_flight_threads", high as u64);
     rep.case = json!({"engine": "stress-threads", "n": n, "reject_when_full": reject, "threads": threads, "rounds": rounds, "admitted": st.admitted_total.load(SeqCst), "max_in_flight": high, "wall_ms": started.elapsed().as_millis() as u64});
-    rep.bucket(format!("threads n={n} reject={reject} threads={threads}"));
+    rep.bucket(format!("threads n={n} reject={reject} threads={threads}{}", if no_runtime { " no-runtime" } else { "" }));
     rep
 }
